@@ -74,8 +74,9 @@ def register_loops(I, loops: DictV):
 
 def _snapshot(v):
     """hooks see the values of mutable locals as they are at the hook, not later"""
-    from .values import BytearrayV, SetV, SymListV
+    from .values import BytearrayV, SetV, SymListV, deref
 
+    v = deref(v)
     if isinstance(v, BytearrayV):
         return BytearrayV(v.rope)
     if isinstance(v, ListV):
@@ -126,9 +127,9 @@ def cut_loop(I, node, env, spec):
 
     init = spec.get("init")
     if init is not None:
-        I.call(init, [vc, _vars_dict(I, env, {"$iter": seq} if is_for else None)], {}, None)
+        I.call(init, [vc, _vars_dict(I, env, {"$iter": seq, "$k": 0} if is_for else None)], {}, None)
     if inv is not None:
-        ctx.check(_call_bool(I, inv, [vc, _vars_dict(I, env, {"$iter": seq} if is_for else None)]), f"{name}.inv_init", where)
+        ctx.check(_call_bool(I, inv, [vc, _vars_dict(I, env, {"$iter": seq, "$k": 0} if is_for else None)]), f"{name}.inv_init", where)
 
     if isinstance(havoc, DictV):
         for vname, gen in havoc.pairs:
